@@ -19,13 +19,14 @@ RULE = (
     "sequential part: every operation sequence of length <=3 (quick) / <=4 (thorough) over 15 operations {load root key; unprotect blob of triple T at position p "
     "(10 (T,p) over 2 SIDs x 2 L0 values); protect for SD1/SD2 with/without naming the root key} x 3 DC policies {authorised+exact position, authorised+later covering "
     "envelope, not authorised (public key only, depth 3)}; the live KeyCache is shared along a history (prefix sharing by deep copy, cross-checked against replay from scratch). "
+    "mixed part: histories of length <=3 over 17 operations {load; 4 operations on one triple x {sync, async} x {caller is a group member, caller is not (public key only)}} on one shared cache. "
     "concurrent part: 2 (quick) / 3 (thorough) async calls on the same triple sharing one cache on the virtual loop; choice point = which task starts / which pending connection "
     "gets its next reply; deviation bound 2 / 3 from run-to-completion order; every execution is continued by each sequential probe operation. Oracle: (1) every call returns within the "
     "step budget with the known plaintext / a blob the reference decryptor opens at key id = now, exceptions only where a fresh cache gives the same; (2) reference model covered[T]=max "
     "position obtained, root_loaded: a call the model says is covered makes zero GetKey RPCs. state = history (sequence of operations / schedule prefix); transition = one API call."
 )
 ASSUME = ["reference DC with the scripted security context (authentication is C15-C17's subject)", "deep copy of the live KeyCache is equivalent to replaying the history (cross-checked on sampled histories)"]
-BOUND = {"quick": "depth 3 over 15 ops x 3 policies; 2 concurrent tasks, deviation bound 2", "thorough": "depth 4 (authorised policies), depth 3 (not authorised); 3 concurrent tasks, deviation bound 3"}
+BOUND = {"quick": "depth 3 over 15 ops x 3 policies; mixed flavour/caller histories depth 3 over 17 ops; 2 concurrent tasks, deviation bound 2", "thorough": "depth 4 (authorised policies), depth 3 (not authorised); mixed depth 3; 3 concurrent tasks, deviation bound 3"}
 
 A, Bb = 361, 360
 NOW = (A, 10, 12)
@@ -37,6 +38,14 @@ TRIPLES = {"T1": (SID1, A), "T2": (SID2, A), "T3": (SID1, Bb)}
 UNPROT = [("T1", (3, 5)), ("T1", (3, 20)), ("T1", (10, 5)), ("T1", (10, 12)), ("T2", (3, 5)), ("T2", (10, 12)), ("T3", (3, 5)), ("T3", (20, 0)), ("T3", (31, 31)), ("T3", (10, 31))]
 OPS: t.List[t.Tuple[t.Any, ...]] = [("load",)] + [("unprot", T, p) for T, p in UNPROT] + [("prot", s, named) for s in ("T1", "T2") for named in (True, False)]
 POLICIES = ["exact", "later", "unauth"]
+# mixed histories: each operation additionally names its API flavour and its caller (a group member served with seed keys, or a
+# non-member whom the DC only hands the public key) - all sharing ONE cache
+MIXED_BASE = [("unprot", "T1", (3, 5)), ("unprot", "T1", (10, 12)), ("prot", "T1", True), ("prot", "T1", False)]
+MIXED_OPS: t.List[t.Tuple[t.Any, ...]] = [("load",)] + [b + (fl, who) for b in MIXED_BASE for fl in ("sync", "async") for who in ("exact", "unauth")]
+
+
+def eff_policy(op, policy: str) -> str:
+    return op[4] if len(op) > 4 else policy
 STEP_LIMIT = 400000
 
 _w: t.Dict[str, t.Any] = {}
@@ -91,14 +100,17 @@ def coro_async(w, cache, op):
 
 def run_op(w, cache, op, policy: str):
     """-> (status, value, dc) ; status ok|exc|budget|blocks"""
-    dc = mk_dc(w, policy)
+    dc = mk_dc(w, eff_policy(op, policy))
     with seams.clock(NOW_FT), transport.network(dc), secctx.scripted_client(_ctx):
         try:
-            v = budget.run(STEP_LIMIT, call_sync, w, cache, op, kdf_limit=200)[0]
+            if len(op) > 3 and op[3] == "async":
+                v = budget.run(STEP_LIMIT, lambda: vloop.run(coro_async(w, cache, op)), kdf_limit=200)[0]
+            else:
+                v = budget.run(STEP_LIMIT, call_sync, w, cache, op, kdf_limit=200)[0]
             return "ok", v, dc
         except budget.BudgetExceeded as e:
             return "budget", repr(e), dc
-        except (transport.BlocksForever, transport.Spin) as e:
+        except (transport.BlocksForever, transport.Spin, vloop.Deadlock) as e:
             return "blocks", repr(e), dc
         except seams.NeedsNetwork as e:
             return "exc", ("NeedsNetwork", str(e)), dc
@@ -147,7 +159,7 @@ def model_update(w, m: dict, op, dc: refdc.DC) -> dict:
 
 def expected_failure(m: dict, op, policy: str) -> bool:
     """fresh-cache behaviour: only unprotect for a caller who gets no seed keys fails"""
-    return op[0] == "unprot" and policy == "unauth" and not m["root"]
+    return op[0] == "unprot" and eff_policy(op, policy) == "unauth" and not m["root"] and not model_covered(m, op)
 
 
 def check_result(w, m: dict, op, policy: str, status: str, value, dc: refdc.DC, case, acc, tag: str = "") -> None:
@@ -184,8 +196,8 @@ def check_result(w, m: dict, op, policy: str, status: str, value, dc: refdc.DC, 
 # -- sequential exploration ------------------------------------------------------------------------------------
 
 
-def dfs(w, acc, policy: str, cache, model: dict, history: t.List[t.Any], depth_left: int, counter: t.List[int]) -> None:
-    for op in OPS:
+def dfs(w, acc, policy: str, cache, model: dict, history: t.List[t.Any], depth_left: int, counter: t.List[int], ops=None) -> None:
+    for op in ops or OPS:
         if acc.too_many():
             return
         c2 = copy.deepcopy(cache)
@@ -202,7 +214,7 @@ def dfs(w, acc, policy: str, cache, model: dict, history: t.List[t.Any], depth_l
         if counter[0] % 97 == 0:
             crosscheck(w, acc, policy, hist2, status, value)
         if depth_left > 1 and status == "ok" or (depth_left > 1 and status == "exc"):
-            dfs(w, acc, policy, c2, m2, hist2, depth_left - 1, counter)
+            dfs(w, acc, policy, c2, m2, hist2, depth_left - 1, counter, ops)
 
 
 def replay_history(w, policy: str, hist):
@@ -362,6 +374,8 @@ def shards(tier: str, seed: int):
         depth = 3 if tier == "quick" or pol == "unauth" else 4
         for i in range(len(OPS)):
             out.append(["seq", pol, i, depth])
+    for i in range(len(MIXED_OPS)):
+        out.append(["mixed", "exact", i, 3])
     pairs = []
     for T in ("T1", "T3"):
         ups = [op for op in OPS if op[0] == "unprot" and op[1] == T]
@@ -389,11 +403,12 @@ def _norm(op) -> t.Tuple[t.Any, ...]:
 def run_shard(shard, tier, seed, acc) -> None:
     worker_init()
     w = world(seed)
-    if shard[0] == "seq":
+    if shard[0] in ("seq", "mixed"):
         import dpapi_ng
 
         _, pol, first, depth = shard
-        op = OPS[first]
+        ops = OPS if shard[0] == "seq" else MIXED_OPS
+        op = ops[first]
         cache = dpapi_ng.KeyCache()
         m = new_model()
         status, value, dc = run_op(w, cache, op, pol)
@@ -403,10 +418,10 @@ def run_shard(shard, tier, seed, acc) -> None:
         acc.states += 1
         acc.transitions += 1
         counter = [1]
-        dfs(w, acc, pol, cache, m2, [list(op)], depth - 1, counter)
+        dfs(w, acc, pol, cache, m2, [list(op)], depth - 1, counter, ops)
         acc.ev(counter[0])
         acc.nt_counted(counter[0])
-        acc.sample({"policy": pol, "history": [list(op), list(OPS[(first + 3) % len(OPS)]), list(OPS[(first + 7) % len(OPS)])]})
+        acc.sample({"policy": pol if shard[0] == "seq" else "per operation", "history": [list(op), list(ops[(first + 3) % len(ops)]), list(ops[(first + 7) % len(ops)])]})
     else:
         _, pol, ops, bound = shard
         concurrent_shard(w, acc, pol, [_norm(o) for o in ops], bound, False)
